@@ -160,6 +160,17 @@ fn cs_valid(s: Sc, rng: &mut Rng) -> Doc {
             _ => rng.pick(&WORDS).to_string(),
         });
     }
+    // pieces are taken verbatim: surrounding whitespace belongs to the piece (so " 2" is not a
+    // number, and " x" is the string " x"), and a whitespace-only piece is a piece
+    if !pieces.is_empty() && rng.chance(1, 6) {
+        let i = rng.below(pieces.len());
+        pieces[i] = match rng.below(4) {
+            0 => format!(" {}", pieces[i]),
+            1 => format!("{} ", pieces[i]),
+            2 => " ".to_string(),
+            _ => format!("\t{}", pieces[i]),
+        };
+    }
     let mut text = pieces.join(",");
     // empty pieces are legal and dropped
     if rng.chance(1, 5) {
